@@ -33,6 +33,9 @@ CATALOGUE = {
     # keys holding a tab: ("so\tuth", "lee") and ("so", "uth\tlee") are different keys although their texts joined by a tab are equal
     "kt1": ({"type": "Text", "length": [[1, 6, False]]}, 6, ["so\tuth", "so", "x"], [""]),
     "kt2": ({"type": "Text", "length": [[1, 7, False]]}, 7, ["lee", "uth\tlee"], [""]),
+    # keys holding a comma and a blank: distinct pairs that read alike when written as a list
+    "kc1": ({"type": "Text", "length": [[1, 4, False]]}, 4, ["a, b", "a"], [""]),
+    "kc2": ({"type": "Text", "length": [[1, 4, False]]}, 4, ["c", "b, c"], [""]),
     "KA": ({"type": "Text", "length": [[1, 2, False]]}, 2, ["x", "y"], [""]),  # declared next to 'ka': names are case sensitive
     "kc": ({"type": "Integer", "rule": {"items": [[0, 9, False]]}}, 1, ["1", "2"], ["z"]),
     "v": ({"type": "Text", "length": [[1, 1, True]]}, 1, ["p", "q", "r", "s", "t"], [""]),
@@ -284,6 +287,8 @@ def row_shapes(config, decls, tier="quick"):
     if fmt != "fixed":
         shapes.append(("short", list(base[:-1])))
         shapes.append(("long", list(base) + ["zz"]))
+        if fmt == "delimited":
+            shapes.append(("long-by-an-empty-item", list(base) + [""]))  # a surplus item is one too many whatever it holds
         if fmt != "excel":
             shapes.append(("empty", []))
     return [s for s in shapes if representable(fmt, decls, [s[1]])]
